@@ -438,6 +438,12 @@ func c15Case(c *mon.Ctx, i int) {
 		}
 	case mode == 7: // undecodable input
 		o := pick()
+		for k := 0; o.Kind != corpus.Cert && k < 20; k++ { // the kinds below are built from a CERTIFICATE's bytes
+			o = pick()
+		}
+		if o.Kind != corpus.Cert {
+			o = W.Objs[W.ByKind[corpus.Cert][0]]
+		}
 		good := encodeInput(o, "pem")
 		type bad struct {
 			name, suffix, format string
@@ -559,7 +565,7 @@ func init() {
 		Rule:        "evaluations = invocations of the real zlint binary (built from the tree under test). 70%: parseable certificates / CRLs (corpus + mutants) as PEM / DER / base64, from files (suffix- or -format-selected) or stdin, 1-3 files per invocation, with seeded selection flags (include/exclude names and sources, nameFilter, profile, config file) and output modes (JSON, -pretty, -summary, -longSummary); stdout is decoded and compared result by result (label and details) with the in-process library under the selection the documentation assigns to those flags, summary tables with the counts of those results. 10%: undecodable inputs (15 kinds + parser-rejected mutants; alone, on stdin, or after a good file). 20%: invalid selectors. Those must exit non-zero without a result object. distinct_nontrivial = distinct (selection, input) result sets compared.",
 		Assumptions: []string{"OCSP responses are not a CLI input", "the library side uses the same build of zlint; the comparison is about the CLI's decoding, selection and printing"},
 		Setup:       c15Setup,
-		Cases:       func(c *mon.Ctx) int { return c.Pick(1200, 40000) },
+		Cases:       func(c *mon.Ctx) int { return c.Pick(5000, 60000) },
 		RunCase:     c15Case,
 		Finish: func(c *mon.Ctx, r *mon.Report, ev *mon.Evidence) []string {
 			var gates []string
